@@ -31,7 +31,7 @@ LEVEL_TEXT = (
     'used to address another subgraph\'s lists. The suite has a single '
     'two-signature fixture and no multi-subgraph transformation test. '
     'Equality with stand-alone quantization of each subgraph is not decided.'
-    ' Shared tables are append-only in every transformation; graph info, bookkeeping and rewrite are tabled on models with two or three differently laid out subgraphs.'
+    ' Shared tables are append-only in every transformation; graph info, bookkeeping and rewrite are tabled on models with two or three differently laid out subgraphs (one operator next to five); on label models every subgraph is pushed through the whole pipeline alone and in company and must come out the same, also with blockwise operator replacement.'
 )
 LEVEL_NOTE = (
     'Trusted: sa def-use engine; the convention that tensor ids / op ids are '
